@@ -480,14 +480,18 @@ theorem Registered.mono {r r' : RSys} (ha : ∀ p ∈ r.apps, p ∈ r'.apps) (hn
   obtain ⟨ns, h1, h2, h3⟩ := h
   exact ⟨ns, hn ns h1, ha _ h2, h3⟩
 
+/-- the state after `self._apps[app_id] = AppNamespace(…)` -/
+def withNewApp (r : RSys) (app : String) : RSys :=
+  { r with apps := r.apps ++ [(app, r.nextOid)], nss := r.nss ++ [(⟨r.nextOid, app, []⟩ : Ns)],
+           nextOid := r.nextOid + 1 }
+
 theorem getApp_fst_some {r : RSys} {app : String} {n : Nat} (e : alookup r.apps app = some n) :
     r.getApp app = (r, n) := by
   unfold getApp; rw [e]
 
 theorem getApp_fst_none {r : RSys} {app : String} (e : alookup r.apps app = none) :
-    r.getApp app = ({ r with apps := r.apps ++ [(app, r.nextOid)], nss := r.nss ++ [{ oid := r.nextOid, app := app }],
-              nextOid := r.nextOid + 1 }, r.nextOid) := by
-  unfold getApp; rw [e]
+    r.getApp app = ((r.withNewApp app), r.nextOid) := by
+  unfold getApp withNewApp; rw [e]
 
 /-- `Server.get_app`: the registered namespace of `app` (created if need be); nothing else changes -/
 theorem getApp_spec {r : RSys} (h : r.RegInv) (app : String) :
@@ -500,12 +504,12 @@ theorem getApp_spec {r : RSys} (h : r.RegInv) (app : String) :
     exact ⟨h, rfl, rfl, rfl, rfl, (alookup_eq_some h.appsKey).1 e⟩
   | none =>
     rw [getApp_fst_none e]
-    refine ⟨?_, rfl, rfl, rfl, rfl, by simp⟩
+    refine ⟨?_, rfl, rfl, rfl, rfl, by simp [withNewApp]⟩
     have hk := alookup_eq_none.1 e
     have hmono : ∀ a m o, r.Registered a m o →
-        ({ r with apps := r.apps ++ [(app, r.nextOid)], nss := r.nss ++ [{ oid := r.nextOid, app := app }],
-              nextOid := r.nextOid + 1 } : RSys).Registered a m o :=
+        ((r.withNewApp app)).Registered a m o :=
       fun a m o hr => hr.mono (fun p hp => List.mem_append_left _ hp) (fun ns hns => List.mem_append_left _ hns)
+    unfold withNewApp at hmono ⊢
     refine ⟨h.connIds, ?_, ?_, h.mbOids, ?_, ?_, ?_, ?_, ?_, ?_, ?_, h.heldObj, ?_, h.listenIff, h.lisConn, h.lisNodup⟩
     · simp only [List.pairwise_append, List.pairwise_cons, List.Pairwise.nil, List.mem_singleton]
       refine ⟨h.appsKey, by simp, ?_⟩
